@@ -133,7 +133,11 @@ def run_stencils(spec, rec, dadi):
         tags = {"k": k, "any_one_sided": bool(one.any()), "all_one_sided": bool(one.all()), "integer_point": int_point}
         if int_point and ci % 2:
             p0 = [int(v) for v in p0]
-        h = np.where(one, eps, eps * np.abs(np.asarray(p0, float)))
+        # step actually taken: eps for zero/tiny parameters, eps*|p| otherwise; for a negative parameter either (the code as pinned
+        # treats "p*eps < 1e-6" as tiny, which every negative value satisfies; since the repair it goes by magnitude) -- the
+        # round-off allowance uses the smaller of the two, and exactness for quadratics holds under both
+        pabs = np.abs(np.asarray(p0, float))
+        h = np.where(pabs * eps < 1e-6, eps, np.where(np.asarray(p0, float) < 0, np.minimum(eps, eps * pabs), eps * pabs))
         scale = max(float(np.max(np.abs(A))), 1e-300)
         pf = np.asarray(p0, float)
         fmax = max(abs(quad(pf)), abs(quad(pf + 2 * h)), abs(quad(pf - h)), 1.0)
@@ -170,7 +174,7 @@ def linear_model(dadi, B, pts_dependent=False):
     return model
 
 
-def make_linear_case(rng, dadi, k=None):
+def make_linear_case(rng, dadi, k=None, sparse=False, negative=False):
     n = int(rng.integers(8, 20))
     i = np.arange(n + 1)
     mid = (i > 0) & (i < n)
@@ -178,6 +182,11 @@ def make_linear_case(rng, dadi, k=None):
     k = k or int(rng.integers(2, 5))
     B = np.array(cols[:k]).T
     p0 = np.array([30., 12., 4., 9.][:k]) * np.exp(rng.uniform(-0.3, 0.3, k))
+    if sparse:
+        p0 = p0 * 0.06          # expected counts of order one: bootstrap spectra with many empty bins
+    if negative:
+        # a linear model may have a negative coefficient as long as the spectrum stays positive (30/i - i/n > 0 for n <= 19)
+        p0[1] = -float(rng.uniform(0.4, 1.2))
     m0 = B @ p0
     data = dadi.Spectrum(rng.poisson(m0 * 3).astype(float) / 3.0 + 0.01 * mid)
     boots = [dadi.Spectrum(rng.poisson(m0).astype(float)) for _ in range(int(rng.integers(8, 25)))]
@@ -188,7 +197,7 @@ def run_closed(spec, rec, dadi):
     from dadi import Godambe
     for ci in range(spec["n"]):
         rng = rng_for(spec["seed"], "C19cl", spec["b"], ci)
-        n, B, p0, data, boots, mid = make_linear_case(rng, dadi)
+        n, B, p0, data, boots, mid = make_linear_case(rng, dadi, sparse=(ci % 4 == 2), negative=(ci % 4 == 3))
         k = len(p0)
         eps = float(rng.choice([1e-2, 3e-3, 1e-3]))
         model = linear_model(dadi, B)
@@ -198,6 +207,14 @@ def run_closed(spec, rec, dadi):
             continue
         tags = {"k": k, "eps": eps}
         tol = 50 * eps ** 2
+        sparse = ci % 4 == 2
+        if sparse or ci % 4 == 3:
+            # expected counts of order one, or a negative coefficient that makes the high-frequency entries small: data/model ratios
+            # scatter over two decades, and the constant in front of eps^2 with them (seen on the unchanged tree: up to 4.7 times
+            # the constant used for well-filled spectra); the order in eps is still checked by the halving rule below
+            tol = 10 * tol
+        tags["sparse"] = sparse
+        tags["negative_coefficient"] = bool(np.any(p0 < 0))
         m = B @ p0
         Bm = B[mid]
         d = np.asarray(data.data)[mid]
@@ -213,7 +230,8 @@ def run_closed(spec, rec, dadi):
         if ok:
             rec.close("FIM-closed-form", float(np.max(np.abs(np.asarray(fim[1]) - H)) / np.max(np.abs(H))), tol, site="Godambe.FIM_uncert", tags=tags)
             rec.close("FIM-closed-form", rel(fim[0], np.sqrt(np.diag(np.linalg.inv(H)))), 4 * tol, site="Godambe.FIM_uncert", tags=dict(tags, what="uncert"))
-        ok, fl = rec.noraise("returns", lambda: Godambe.FIM_uncert(model, [10], p0, data, multinom=False, eps=eps, log=True, return_FIM=True), site="Godambe.FIM_uncert", tags=tags)
+        positive = bool(np.all(p0 > 0))          # (log parameters exist for positive parameters only)
+        ok, fl = rec.noraise("returns", lambda: Godambe.FIM_uncert(model, [10], p0, data, multinom=False, eps=eps, log=True, return_FIM=True), site="Godambe.FIM_uncert", tags=tags) if positive else (False, None)
         if ok:
             g0 = Bm.T @ (-1 + d / m[mid])               # gradient of ll at p0 wrt p
             Hl = np.diag(p0) @ H @ np.diag(p0) - np.diag(g0 * p0)     # chain rule for d/dlog p
@@ -242,14 +260,19 @@ def run_closed(spec, rec, dadi):
             Hl = np.diag(p0) @ H @ np.diag(p0) - np.diag(g0 * p0)
             Jl = np.diag(p0) @ J @ np.diag(p0)
             Gl = Hl @ np.linalg.inv(Jl) @ Hl
-            okl, gl = rec.noraise("returns", lambda: Godambe.GIM_uncert(model, [10], boots, list(p0), data, log=True, multinom=False, eps=eps), site="Godambe.GIM_uncert", tags=tags)
+            okl, gl = rec.noraise("returns", lambda: Godambe.GIM_uncert(model, [10], boots, list(p0), data, log=True, multinom=False, eps=eps), site="Godambe.GIM_uncert", tags=tags) if positive else (False, None)
             if okl and np.all(np.diag(np.linalg.inv(Gl)) > 0):
                 e1 = rel(gl, np.sqrt(np.diag(np.linalg.inv(Gl))))
                 okl2, gl2 = rec.noraise("returns", lambda: Godambe.GIM_uncert(model, [10], boots, list(p0), data, log=True, multinom=False, eps=eps / 2), site="Godambe.GIM_uncert", tags=tags)
                 if okl2:
                     e2 = rel(gl2, np.sqrt(np.diag(np.linalg.inv(Gl))))
                     cond = np.linalg.cond(Hl) + np.linalg.cond(Jl)
-                    rec.check("GIM-log-second-order", e1 <= 0.5 and e2 <= e1 / 2.5 + 4 * eps ** 2 + 1e-9 * cond, site="Godambe.GIM_uncert", tags=dict(tags, log=True), observed=[e1, e2])
+                    # (same round-off floor as for the other statistics: second differences of the log-likelihood at step eps/2 in the
+                    # log parameters, amplified by the conditioning of what is inverted; sparse cases sit on it already at eps = 1e-3)
+                    llv_ = abs(float(dadi.Inference.ll(model(p0, None, None), data)))
+                    floor_l = 64 * 2.2e-16 * llv_ / (eps / 2) ** 2 / float(np.max(np.abs(Hl))) * cond
+                    rec.check("GIM-log-second-order", e1 <= 0.5 and e2 <= e1 / 2.5 + 4 * eps ** 2 + 1e-9 * cond + floor_l, site="Godambe.GIM_uncert", tags=dict(tags, log=True),
+                              observed=[e1, e2])
         # (1b) bootstraps with their own relative theta (boot_theta_adjusts): score of bootstrap b is B^T(-a_b + boot_b/m); H is untouched;
         #      jointly permuting bootstraps and adjustments changes nothing; a plain call afterwards is what it was before
         adj = [float(v) for v in np.exp(rng.uniform(-0.25, 0.25, len(boots)))]
@@ -275,6 +298,17 @@ def run_closed(spec, rec, dadi):
                 if okc:
                     rec.close("plain-call-unchanged-after-theta-adjusts", float(np.max(np.abs(np.asarray(ggc[2], float) - Jc)) / gscale ** 2), 1e-12, site="Godambe.get_godambe", tags=ta)
                     rec.close("plain-call-unchanged-after-theta-adjusts", float(np.max(np.abs(np.asarray(ggc[1], float) - Hc)) / np.max(np.abs(H))), 1e-12, site="Godambe.get_godambe", tags=dict(ta, what="H"))
+        # (1c) the same in log parameters: scores pick up a factor p_i (chain rule), the theta adjustments act exactly as before
+        okla, ggla = rec.noraise("returns", lambda: Godambe.get_godambe(model, [10], boots, list(p0), data, eps, log=True, boot_theta_adjusts=list(adj)),
+                                 site="Godambe.get_godambe", tags=dict(tags, theta_adjusts=True, log=True)) if positive else (False, None)
+        if okla:
+            Dp = np.diag(p0)
+            Jla = Dp @ Ja @ Dp
+            sc_l = float(np.mean([np.max(np.abs(p0 * g)) for g in grads_a]))
+            rec.close("godambe-matrices-closed-form", float(np.max(np.abs(np.asarray(ggla[2], float) - Jla)) / sc_l ** 2), 8 * tol, site="Godambe.get_godambe",
+                      tags=dict(tags, theta_adjusts=True, log=True, what="J"))
+            rec.close("godambe-matrices-closed-form", float(np.max(np.abs(np.asarray(ggla[3], float).ravel() - p0 * cUa)) / sc_l), 4 * tol, site="Godambe.get_godambe",
+                      tags=dict(tags, theta_adjusts=True, log=True, what="cU"))
         # (2) every statistic equals its defining algebra on the matrices of the nested sub-problem, and (3) converges to the
         #     closed form at second order in eps (error falls >= 2.5x when eps is halved)
         ix = np.ix_(nested, nested)
